@@ -505,7 +505,11 @@ class Ctx:
         cov.update(self.extra)
         ev = {"property_id": self.pid, "tier": self.tier, "seed": self.seed, "level": self.level, "coverage": cov,
               "assumptions": self.assumptions, "wall_s": round(time.time() - self.t0, 2), "violations": nviol}
-        json.dump(ev, open(os.path.join(VERIF, "evidence", self.pid + ".json"), "w"), indent=1, default=str)
+        # evidence/<ID>.json describes runs against /repo itself; a run against another checkout (VERIF_REPO: seeded
+        # changes, scratch worktrees of fixes) must not overwrite it
+        evdir = os.path.join(VERIF, "evidence") if REPO == "/repo" else os.path.join(BUILD, "evidence-scratch")
+        os.makedirs(evdir, exist_ok=True)
+        json.dump(ev, open(os.path.join(evdir, self.pid + ".json"), "w"), indent=1, default=str)
         for l in lines:
             print(l, flush=True)
         shutil.rmtree(self.tmp, ignore_errors=True)
